@@ -166,7 +166,7 @@ pub fn run(ctx: &Ctx) -> (Report, Meta) {
     .floor("mass_storage_pairs", 100)
     .floor("jac_storage_pairs", 300)
     .floor("jac_source_pairs", 100);
-    let n = ctx.size(6_000, 400_000);
+    let n = ctx.size(24_000, 2_000_000);
     let rep = par_for(n, "C15", |i, rep| {
         let case_id = format!("case/{}", i);
         if !ctx.want(&case_id) {
@@ -288,10 +288,12 @@ pub fn run(ctx: &Ctx) -> (Report, Meta) {
                             rep.nontrivial(scn_hash(&scn, &prob));
                             let mut worst: f64 = 0.0;
                             let mut resid: f64 = 0.0;
+                            let mut resids: Vec<f64> = Vec::with_capacity(sol.t.len());
                             for (k, &t) in sol.t.iter().enumerate() {
                                 let ex = prob.exact(t).unwrap();
                                 let y = &sol.y[k];
                                 let tolj = scn.atol.at(1) + scn.rtol.at(1) * ex[1].abs();
+                                resids.push((y[1] - (y[0] * y[0] + 1.0)).abs() / tolj);
                                 resid = resid.max((y[1] - (y[0] * y[0] + 1.0)).abs() / tolj);
                                 for j in 0..2 {
                                     let sc = scn.atol.at(j) + scn.rtol.at(j) * ex[j].abs();
@@ -305,7 +307,14 @@ pub fn run(ctx: &Ctx) -> (Report, Meta) {
                             let rescale = (0.1 * rt.powf(2.0 / 3.0) / rt).max(1.0);
                             rep.worst(&format!("dae_constraint_residual_in_internal_tolerance_units_{}", cls), resid / rescale);
                             if resid > 300.0 * rescale {
-                                rep.violate(&format!("C15/dae_constraint/RADAU/{}", cls), format!("algebraic constraint violated by {:.1} tolerance units ({:.1} in Radau's internal tolerance scale)", resid, resid / rescale), &case_id, case.clone());
+                                // Known finding (RADAU5's convergence test accepts a single Newton iteration when the rate
+                                // remembered from the previous step is tiny): the algebraic variable of ONE sample is off and
+                                // the next step repairs it. Two consecutive samples off the constraint are something else.
+                                let lim = 300.0 * rescale;
+                                let consecutive = resids.windows(2).any(|w| w[0] > lim && w[1] > lim);
+                                let cls2 = if consecutive { cls.to_string() } else { "isolated_sample".to_string() };
+                                let kbad = resids.iter().position(|&r| r > lim).unwrap_or(0);
+                                rep.violate(&format!("C15/dae_constraint/RADAU/{}", cls2), format!("algebraic constraint violated by {:.1} tolerance units ({:.1} in Radau's internal tolerance scale) at sample {} (t = {:e}) of {}", resid, resid / rescale, kbad, sol.t[kbad], sol.t.len()), &case_id, case.clone());
                             }
                             if worst > k_acc {
                                 rep.violate(&format!("C15/dae_accuracy/RADAU/{}", cls), format!("state error {:.1} x naccpt x tolerance scale", worst), &case_id, case);
